@@ -2626,9 +2626,7 @@ class PyCdlib:
 
         if self.eltorito_boot_catalog is not None:
             for rec in self.eltorito_boot_catalog.dirrecords:
-                if isinstance(rec, udfmod.UDFFileEntry):
-                    continue
-                if rec.file_ident == found_record.file_ident and rec.parent == found_record.parent:
+                if rec is found_record:
                     # The catalog records where the boot files are, so they
                     # have to be assigned their extents first.
                     if self._needs_reshuffle:
